@@ -208,7 +208,10 @@ PktReason(sc, wdd, wod, i, p, withopts) ==
   ELSE IF p.len # it.len THEN "length-altered"
   ELSE IF p.dl # it.cap THEN "data-length-differs-from-capture-length"
   ELSE IF p.dd # wdd[i] THEN "data-altered"
-  ELSE IF p.s # it.s \/ p.ns # ExpNs(sc, it.ns) THEN "timestamp-altered"
+  ELSE IF p.s # it.s \/ p.ns # ExpNs(sc, it.ns)
+       THEN IF sc.fmt = "ng" /\ Idbs(sc)[it.ifc + 1].tsoff # 0 /\ p.s = it.s + Idbs(sc)[it.ifc + 1].tsoff /\ p.ns = it.ns
+            THEN "timestamp-shifted-by-interface-offset"      \* the writer stores if_tsoffset but does not subtract it
+            ELSE "timestamp-altered"
   ELSE IF sc.fmt = "ng" /\ p.ifc # it.ifc THEN "interface-index-altered"
   ELSE IF sc.fmt = "ng" /\ sc.mixed /\ p.lt # LinkOf(sc, it) THEN "link-type-altered"
   ELSE IF wo /\ p.cm # it.cm THEN "comment-option-altered"
